@@ -218,6 +218,14 @@ func (g *G) callOrdK(d int, mode string, intOnly bool) Expr {
 		if d > 0 && g.R.Intn(3) == 0 {
 			return g.intOrd(d - 1)
 		}
+		if (ce.name == "h1" || ce.name == "h2" || ce.name == "h3" || ce.name == "hv") && mode == "expr" && g.R.Intn(5) == 0 {
+			// address-of operands to a Go function: the operands of the addressed expression run once
+			g.feat("addr-of-argument")
+			if g.R.Intn(3) == 0 {
+				return &AddrOf{X: &Name{N: "l"}}
+			}
+			return &AddrOf{X: &Index{X: &Name{N: "l"}, I: &Call{Fn: "pv", Args: []Expr{&IntLit{V: g.probeID()}, &IntLit{V: int64(g.R.Intn(3))}}}}}
+		}
 		return g.leaf()
 	}
 	if ce.nparams == 0 && g.R.Intn(12) == 0 {
